@@ -87,8 +87,10 @@ func (b *Buffer[K, V]) Add(n ReadBufItem[K, V]) *PolicyBuffers[K, V] {
 	tail := b.tail.Load()
 	size := tail - head
 	if size >= capacity {
-		// full buffer
-		return nil
+		// full buffer: the producer that filled it may have found the
+		// previous batch still in use and left without draining, so whoever
+		// sees it full takes over the drain (the new item itself is dropped)
+		return b.drain()
 	}
 	if b.tail.CompareAndSwap(tail, tail+1) {
 		// success
@@ -99,31 +101,41 @@ func (b *Buffer[K, V]) Add(n ReadBufItem[K, V]) *PolicyBuffers[K, V] {
 		}))
 		if size == capacity-1 {
 			// try return new buffer
-			if !atomic.CompareAndSwapPointer(&b.returned, b.policyBuffers, nil) {
-				// somebody already get buffer
-				return nil
-			}
-
-			pb := (*PolicyBuffers[K, V])(b.policyBuffers)
-			for i := 0; i < capacity; i++ {
-				index := int(head & mask)
-				v := atomic.LoadPointer(&b.buffer[index])
-				if v != nil {
-					// published
-					pb.Returned = append(pb.Returned, *castToPointer[K, V](v))
-					// release
-					atomic.StorePointer(&b.buffer[index], nil)
-				}
-				head++
-			}
-
-			b.head.Store(head)
-			return pb
+			return b.drain()
 		}
 	}
 
 	// failed
 	return nil
+}
+
+// drain takes the batch token and collects every published slot.
+// head is only written by the token holder, so it is re-read here.
+func (b *Buffer[K, V]) drain() *PolicyBuffers[K, V] {
+	if !atomic.CompareAndSwapPointer(&b.returned, b.policyBuffers, nil) {
+		// somebody already get buffer
+		return nil
+	}
+	head := b.head.Load()
+	if b.tail.Load()-head < capacity {
+		// drained meanwhile
+		atomic.StorePointer(&b.returned, b.policyBuffers)
+		return nil
+	}
+	pb := (*PolicyBuffers[K, V])(b.policyBuffers)
+	for i := 0; i < capacity; i++ {
+		index := int(head & mask)
+		v := atomic.LoadPointer(&b.buffer[index])
+		if v != nil {
+			// published
+			pb.Returned = append(pb.Returned, *castToPointer[K, V](v))
+			// release
+			atomic.StorePointer(&b.buffer[index], nil)
+		}
+		head++
+	}
+	b.head.Store(head)
+	return pb
 }
 
 // Load all items in buffer, used in test only to update policy proactive proactively
